@@ -65,6 +65,7 @@ def _c05():
         ("R-READ-FEED", "once Connection::read has fed the parser in a call it returns `data available`: no error / `nothing read` exit is reachable after a feed (path-sensitive), so received commands are always parsed", rules_conn.rule_read_feed),
         ("R-SOCK-WRITE", "every write to the non-blocking client socket is a partial write of write_buffer[write_offset..] whose returned count is added to write_offset (no all-or-nothing write_all / write! that loses the progress of a partial write)", rules_conn.rule_sock_write),
         ("R-BLK-TIMEOUT-REPLY", "the nil reply of the timeout pass is sent only under a still-Blocked test of the connection (one reply per timed-out command, however many keys it named)", rules_block.rule_timeout_reply),
+        ("R-PS-ACKSENT", "a (P)(UN)SUBSCRIBE handler that returns NoResponse has sent at least one frame: its result loop runs (names required by an arity test) or the empty result has a reply of its own", rules_pubsub.rule_acksent),
         ("R-CODEC-INLINE", "an inline (non-RESP) form the incremental parser recognises by a fixed-length comparison has a prefix test answering `incomplete` for a partial arrival (chunking independence)", rules_conn.rule_codec_inline),
         ("R-PARSE-DRAIN", "the loop draining the parser ends only when parse_frame reports an incomplete buffer or an error (no frame budget that strands complete commands until the next read)", rules_conn.rule_parse_drain),
         ("R-CODEC-SHORTTEST", "a non-panicking content test on an open-ended sub-slice of the input whose negative outcome leads to a protocol error is dominated by a length test covering the bytes examined (no error decided from bytes that have not arrived)", rules_conn.rule_codec_shorttest),
@@ -168,6 +169,7 @@ def _c14():
         ("R-PS-LABEL", "every pmessage frame is built inside the receiver loop from the current receiver's own pattern, not cached across receivers", rules_pubsub.rule_label),
         ("R-PS-BYTES", "channel / pattern / payload bytes reach the subscription manager and the message formatters unaltered (no lossy or UTF-8-only decoding, case mapping, cutting on the interprocedural value flow)", rules_pubsub.rule_bytes),
         ("R-PS-ENTRYDROP", "a channel / pattern entry of the global maps is dropped only when its subscriber set is empty (retain closures answer `drop` only under is_empty(); removes happen under, or take keys collected under, that test)", rules_pubsub.rule_entrydrop),
+        ("R-PS-ACKSENT", "a (P)(UN)SUBSCRIBE handler that returns NoResponse has sent at least one frame: its result loop runs (names required by an arity test) or the empty result has a reply of its own", rules_pubsub.rule_acksent),
         ("R-PS-RECORD", "a connection's subscription record is dropped only under `channels.is_empty() && patterns.is_empty()` (or after sweeping both global maps)", rules_pubsub.rule_record),
     ]
 
